@@ -203,7 +203,19 @@ pub fn ends(max_len: usize, positive: bool) -> BoxedStrategy<Vec<f64>> {
 /// switch algorithm with the size of the function (bisection above N segments, inline buffers, ...)
 /// are only reached this way.
 pub fn ends_long(max_len: usize, long_len: usize, positive: bool) -> BoxedStrategy<Vec<f64>> {
-    prop_oneof![9 => ends(max_len, positive), 1 => ends(long_len, positive)].boxed()
+    // 1 case in 40: a length that is exactly a power of two or next to one (block-wise loops with remainder
+    // handling, windows of 64 / 128 / 256 elements)
+    let exact = (0usize..9, ends(520, positive)).prop_map(|(k, mut e)| {
+        let want = [63usize, 64, 65, 128, 129, 255, 256, 257, 512][k];
+        let base = e.clone();
+        while e.len() < want {
+            e.extend_from_slice(&base);
+        }
+        e.truncate(want);
+        e.sort_by(|a, b| a.partial_cmp(b).unwrap());
+        e
+    });
+    prop_oneof![36 => ends(max_len, positive), 3 => ends(long_len, positive), 1 => exact].boxed()
 }
 
 /// Query alphabet of a list of ends (optionally of two lists): every end,
@@ -253,7 +265,7 @@ pub fn coeffs(n: usize, emax: i32) -> BoxedStrategy<Vec<f64>> {
         return Just(Vec::new()).boxed();
     }
     let plain = vec(moderate(emax), n..=n);
-    let pattern = (0u8..8, vec(moderate(emax), n..=n), any::<u16>(), any::<u16>()).prop_map(move |(pat, mut c, i, j)| {
+    let pattern = (0u8..9, vec(moderate(emax), n..=n), any::<u16>(), any::<u16>()).prop_map(move |(pat, mut c, i, j)| {
         let i = idx(i, n);
         let j = idx(j, n);
         match pat {
@@ -286,6 +298,12 @@ pub fn coeffs(n: usize, emax: i32) -> BoxedStrategy<Vec<f64>> {
                 for (k, v) in c.iter_mut().enumerate() {
                     let h = (i as u64).wrapping_mul(0x9E37_79B9).wrapping_add((j as u64) << 7).wrapping_add(k as u64 * 0x85EB_CA6B) >> 3;
                     *v = if h % 2 == 0 { 0.0 } else { ((h / 2) % 5) as f64 - 2.0 };
+                }
+            }
+            8 => {
+                // a planted exact-negation pair (two inputs in an exact relation), also at the extremes
+                if i != j {
+                    c[j] = -c[i];
                 }
             }
             4 => {
